@@ -33,6 +33,17 @@ pub enum Op {
     Extents { h: u8 },
     Remount { how: u8 },
     Tick { ms: u32 },
+    /// a write during which the (k+1)-th device call fails once; if the library reports the error the caller seeks
+    /// back to where the write began and writes the same bytes again - after that the file has to be what one
+    /// successful write would have made it
+    WriteRetry {
+        h: u8,
+        len: u32,
+        seed: u8,
+        k: u16,
+        #[serde(default)]
+        interrupted: bool,
+    },
     /// transient storage fault: the (k+1)-th device call from now fails once with an I/O error; the model-based and
     /// raw-image judgements are suspended for the next `hold` operations (the faulted call may have been cut short at
     /// any point) and resume after them
@@ -201,6 +212,8 @@ pub struct Run<'a> {
     pub fault_hold: u32,
     /// a library call of the current operation returned an error (any kind)
     pub lib_err: bool,
+    /// op_write is running as the caller's retry of a write that failed with an injected fault
+    pub retrying_write: bool,
 }
 
 /// a point at which flushing or dropping a handle returned: the file must survive any later power cut
@@ -244,6 +257,7 @@ impl<'a> Run<'a> {
             mount_image: None,
             fault_hold: 0,
             lib_err: false,
+            retrying_write: false,
             status_at_mount: vol.status0 & 3,
             last_dec: None,
             pattern_salt: 0,
@@ -609,7 +623,8 @@ impl<'a> Run<'a> {
             Op::Remove { via, path } => self.op_remove(*via, path),
             Op::Rename { via, src, dvia, dst } => self.op_rename(*via, src, *dvia, dst),
             Op::Read { h, len } => self.op_read(*h, *len),
-            Op::Write { h, len, seed } => self.op_write(*h, *len, *seed),
+            Op::Write { h, len, seed } => self.op_write(*h, *len, *seed, None),
+            Op::WriteRetry { h, len, seed, k, interrupted } => self.op_write_retry(*h, *len, *seed, *k, *interrupted),
             Op::Seek { h, whence, off } => self.op_seek(*h, *whence, *off),
             Op::Truncate { h } => self.op_truncate(*h),
             Op::Flush { h } => self.op_flush(*h),
@@ -1308,7 +1323,67 @@ impl<'a> Run<'a> {
         Ok(())
     }
 
-    fn op_write(&mut self, h: u8, len: u32, seed: u8) -> VResult<bool> {
+    fn op_write_retry(&mut self, h: u8, len: u32, seed: u8, fault_k: u16, interrupted: bool) -> VResult<bool> {
+        let k = h as usize % NSLOTS;
+        let Some(mf) = self.files[k].clone() else { return Ok(false) };
+        // On a storage that splits transfers a fault can cut a 2- or 4-byte table entry in half; the link a retry then
+        // follows is garbage through nobody's fault but the storage's. The retry contract is checked on storage that
+        // completes each transfer it accepts.
+        if len == 0 || self.vol.short_io != 0 {
+            return self.op_write(h, len, seed, None);
+        }
+        let what = format!("write({}) at {} of {} with a transient fault at device call {}", len, mf.pos, self.model.path_of(mf.node), fault_k);
+        let salted = seed ^ self.pattern_salt;
+        let buf: Vec<u8> = (0..len as u64).map(|i| pattern(salted, mf.pos + i)).collect();
+        self.dev.with(|d| {
+            d.fail_at = Some(d.calls + 1 + fault_k as u64);
+            d.fail_tag = 0xFA17;
+            d.fired = None;
+            d.fail_kind = None;
+            d.fail_interrupted = interrupted;
+        });
+        let free_before = self.free_now();
+        let first = self.call(&what, |s| session::file_write(s.files[k].as_mut().unwrap(), &buf))?;
+        let fired = self.dev.with(|d| {
+            let f = d.fired.is_some();
+            d.fail_at = None;
+            d.fired = None;
+            d.fail_interrupted = false;
+            f
+        });
+        match first {
+            Err(ref e) if fired && ek(e) == EK::Io => {
+                // reported: go back to where the write began and do it again
+                self.trace.hit("write_failed_with_injected_fault_then_retried");
+                let back = self.call("seek back after a failed write", |s| session::file_seek(s.files[k].as_mut().unwrap(), fatfs::SeekFrom::Start(mf.pos)))?;
+                match back {
+                    Ok(p) if p == mf.pos => {}
+                    other => {
+                        if self.cfg.wants(Aspect::File) {
+                            return Err(self.viol(Aspect::File, format!("after a write that failed with an I/O error, seek(Start({})) returned {:?}", mf.pos, other.map_err(|e| ek(&e)))));
+                        }
+                        self.trace.desync = true;
+                        return Ok(true);
+                    }
+                }
+                // the failed attempt may already have extended the chain (or used up the last free cluster without
+                // linking it): whether the retry needs / finds a cluster is not predictable from the model
+                self.retrying_write = true;
+                let r = self.op_write(h, len, seed, None);
+                self.retrying_write = false;
+                r
+            }
+            other => {
+                if fired {
+                    self.trace.hit("write_survived_injected_fault");
+                }
+                self.op_write(h, len, seed, Some((other, free_before)))
+            }
+        }
+    }
+
+    /// `pre`: the result of a write call already made (op_write_retry); None = make the call
+    fn op_write(&mut self, h: u8, len: u32, seed: u8, pre: Option<(Result<usize, FErr>, u64)>) -> VResult<bool> {
         let k = h as usize % NSLOTS;
         let Some(mf) = self.files[k].clone() else { return Ok(false) };
         let what = format!("write({}) at {} of {}", len, mf.pos, self.model.path_of(mf.node));
@@ -1316,10 +1391,16 @@ impl<'a> Run<'a> {
         let size = self.model.data(mf.node).len() as u64;
         let chain_len = (size + cs - 1) / cs;
         let needs_cluster = len > 0 && mf.pos % cs == 0 && mf.pos / cs >= chain_len;
-        let free = self.free_now();
+        let free = match &pre {
+            Some((_, f)) => *f,
+            None => self.free_now(),
+        };
         let seed = seed ^ self.pattern_salt;
         let buf: Vec<u8> = (0..len as u64).map(|i| pattern(seed, mf.pos + i)).collect();
-        let res = self.call(&what, |s| session::file_write(s.files[k].as_mut().unwrap(), &buf))?;
+        let res = match pre {
+            Some((r, _)) => r,
+            None => self.call(&what, |s| session::file_write(s.files[k].as_mut().unwrap(), &buf))?,
+        };
         if res.is_err() {
             self.lib_err = true;
         }
@@ -1327,7 +1408,22 @@ impl<'a> Run<'a> {
             Err(e) => {
                 let kd = ek(&e);
                 self.trace.hit("op_failed");
-                let expected = needs_cluster && free == 0 && kd == EK::NotEnoughSpace;
+                let expected = needs_cluster && free == 0 && kd == EK::NotEnoughSpace || self.retrying_write && kd == EK::NotEnoughSpace;
+                if self.retrying_write && kd == EK::NotEnoughSpace {
+                    // the bytes of the failed attempt may or may not be there and the retry cannot complete: the file is
+                    // no longer comparable with the model, the case ends here
+                    self.trace.hit("retry_out_of_space_case_ended");
+                    for f in self.files.iter_mut() {
+                        *f = None;
+                    }
+                    for d in self.dirs.iter_mut() {
+                        *d = None;
+                    }
+                    if let Some(sess) = self.sess.take() {
+                        sess.abandon();
+                    }
+                    return Ok(true);
+                }
                 if expected {
                     self.trace.hit("write_no_space");
                 }
@@ -1345,7 +1441,7 @@ impl<'a> Run<'a> {
                     if len > 0 && (n == 0 || n > len as u64) {
                         return Err(self.viol(Aspect::File, format!("{} returned {} (must be in 1..={})", what, n, len)));
                     }
-                    if needs_cluster && free == 0 {
+                    if needs_cluster && free == 0 && !self.retrying_write {
                         return Err(self.viol(Aspect::File, format!("{} succeeded although no cluster was free", what)));
                     }
                 }
